@@ -705,6 +705,16 @@ def _fraction_cases(max_nodes):
                 for hide in [[]] + [[x] for x in sub]:
                     k += 1
                     yield {"shape": forest.to_list(shape), "names": special_names(size, k), "start": start, "stop": [], "hide": hide, "maxlevel": half + 0.5, "truth": k, "positional": k % 4 == 0, "cls": "Node"}
+            # nodes that share a name (DotExporter then writes the same identifier for them) and a filter_ that rejects one of
+            # them: admission is about NODES - no edge to the rejected node, whatever it is called
+            for x in sub[1:]:
+                for y in sub:
+                    if y == x:
+                        continue
+                    k += 1
+                    scheme = ["n%d" % i for i in range(size)]
+                    scheme[x] = scheme[y]  # the rejected node is called like an admitted one; the declared nodes stay distinct
+                    yield {"shape": forest.to_list(shape), "names": scheme, "start": start, "stop": [], "hide": [x], "maxlevel": None, "truth": k, "positional": k % 4 == 0, "cls": "Node", "exporters": ["DotExporter", "RenderTreeGraph"], "phases": False}
             # predicate objects that are falsy: used or ignored, but the same way for node and edge statements
             for stop, hide in [([x], []) for x in sub[1:]] + [([], [x]) for x in sub] + [([x], [y]) for x in sub[1:] for y in sub if x != y]:
                 k += 1
